@@ -218,7 +218,21 @@ fn jf(f: f64) -> Value {
     Value::Number(serde_json::Number::from_f64(f).unwrap())
 }
 
+/// Around the digit bands of the time-unit heuristic: 10^d - 1, 10^d, 10^d + small.
+fn band_edge(r: &mut Rng) -> u64 {
+    let d = 9 + r.below(11) as u32; // 10^9 .. 10^19
+    let p = 10u64.pow(d);
+    match r.below(3) {
+        0 => p - 1,
+        1 => p,
+        _ => p + r.below(1000),
+    }
+}
+
 fn rand_u64(r: &mut Rng) -> u64 {
+    if r.chance(1, 5) {
+        return band_edge(r);
+    }
     match r.below(8) {
         0 => 0,
         1 => i64::MAX as u64,
@@ -232,6 +246,10 @@ fn rand_u64(r: &mut Rng) -> u64 {
 }
 
 fn rand_i64(r: &mut Rng) -> i64 {
+    if r.chance(1, 5) {
+        let e = band_edge(r).min(i64::MAX as u64) as i64;
+        return if r.chance(1, 2) { e } else { -e };
+    }
     match r.below(7) {
         0 => i64::MIN,
         1 => -1,
@@ -284,7 +302,7 @@ fn valid_value(r: &mut Rng, g: &GT) -> Option<Value> {
             _ => jf(finite_f64(r)),
         },
         GT::Bool => json!(r.chance(1, 2)),
-        GT::Ts | GT::Date => match r.below(5) {
+        GT::Ts | GT::Date => match r.below(6) {
             0 => json!(rand_i64(r)),
             1 => {
                 let u = loop {
@@ -296,6 +314,13 @@ fn valid_value(r: &mut Rng, g: &GT) -> Option<Value> {
                 json!(u)
             }
             2 => jf(finite_f64(r)), // CHOICE: a float is seconds (floor, clamped)
+            3 => {
+                // numeric string around a band edge (at most 19 digits: always a valid time)
+                let e = band_edge(r).min(9_999_999_999_999_999_999);
+                let sign = *r.pick(&["", "", "-", "+"]);
+                let zeros = *r.pick(&["", "", "000"]);
+                json!(format!("{}{sign}{zeros}{e}{}", pad(r), pad(r)))
+            }
             _ => json!(*r.pick(GOOD_TIMES)),
         },
         GT::Opt(inner) => match r.below(4) {
@@ -1083,6 +1108,160 @@ fn run_store(a: &Args) {
     });
 }
 
+// ------------------------------------------------------------------------------------------
+// stream: defineh — sequences of define::handle on one registry (redefinition, empty schema)
+
+fn registry_snapshot(reg: &SchemaRegistry) -> Vec<(String, Vec<(String, String)>)> {
+    let mut v: Vec<(String, Vec<(String, String)>)> = reg
+        .get_all()
+        .iter()
+        .map(|(k, ms)| {
+            let mut f: Vec<(String, String)> = ms.fields.iter().map(|(n, t)| (n.clone(), type_tokens(t))).collect();
+            f.sort();
+            (k.clone(), f)
+        })
+        .collect();
+    v.sort();
+    v
+}
+
+fn run_defineh(a: &Args) {
+    let rt = tokio::runtime::Builder::new_current_thread().enable_all().build().unwrap();
+    rt.block_on(async {
+        let mut s = Stream::create(&a.out, "defineh");
+        let (tx, _rx) = tokio::sync::mpsc::channel::<ShardMessage>(4);
+        let sm = ShardManager { shards: vec![Shard { id: 0, tx, base_dir: a.out.join("stub-shard") }] };
+        const TYPES: &[&str] = &["ev", "Ev", "order", "o", " ", "évt", "a b"];
+        for i in 0..a.cases {
+            if a.only.is_some_and(|o| o != i) {
+                continue;
+            }
+            let mut r = Rng::for_case(a.seed, "defineh", i);
+            let p = a.out.join("defineh-registry.bin");
+            let _ = std::fs::remove_file(&p);
+            let registry = Arc::new(RwLock::new(SchemaRegistry::new_with_path(p.clone()).expect("registry")));
+            let n = 2 + r.below(6);
+            let mut ops = vec![];
+            let mut ans = vec![];
+            let mut ok_all = true;
+            let mut detail = String::new();
+            let mut defined: Vec<String> = vec![];
+            for _ in 0..n {
+                let et = r.pick(TYPES).to_string();
+                let fields: Vec<Field> = if r.chance(1, 6) { vec![] } else { gen_schema(&mut r, IDENT_NAMES, false) };
+                let mut map = HashMap::new();
+                for f in &fields {
+                    map.insert(f.name.clone(), match &f.decl {
+                        Decl::Spec(t) => FieldSpec::Primitive(t.clone()),
+                        Decl::EnumSpec(vs) => FieldSpec::Enum(vs.clone()),
+                        Decl::Direct(_) => unreachable!(),
+                    });
+                }
+                let before = registry_snapshot(&*registry.read().await);
+                let cmd = Command::Define { event_type: et.clone(), version: if r.chance(1, 3) { Some(2) } else { None }, schema: CmdSchema { fields: map } };
+                let mut buf = Vec::new();
+                define::handle(&cmd, &sm, &registry, None, Some("bypass"), &mut buf, &JsonRenderer).await.unwrap();
+                let (status, msg) = parse_reply(&buf);
+                let after = registry_snapshot(&*registry.read().await);
+                let kind = if status == 200 {
+                    "ok".to_string()
+                } else if status == 500 && msg.contains("already defined") {
+                    "err already-defined".to_string()
+                } else if status == 500 && msg.to_lowercase().contains("empty") {
+                    "err empty-schema".to_string()
+                } else {
+                    format!("err other {status} {}", hexs(&msg))
+                };
+                s.tally(&format!("answer:{kind}"));
+                // oracle: error ⇒ registry untouched; ok ⇒ exactly this type added, nothing else changed;
+                // accepted ⇔ the type was new and the field list non-empty
+                let expect_ok = !defined.contains(&et) && !fields.is_empty();
+                if status == 200 {
+                    let mut exp = before.clone();
+                    let mut f: Vec<(String, String)> = fields.iter().map(|f| (f.name.clone(), type_tokens(&gt_to_field_type(&f.gt)))).collect();
+                    f.sort();
+                    exp.push((et.clone(), f));
+                    exp.sort();
+                    if exp != after || !expect_ok {
+                        ok_all = false;
+                        detail = format!("DEFINE {et:?} ok but registry differs from before+new, or acceptance unexpected (expect_ok={expect_ok})");
+                    }
+                    defined.push(et.clone());
+                } else if before != after || expect_ok {
+                    ok_all = false;
+                    detail = format!("DEFINE {et:?} answered {kind} but registry changed or rejection unexpected (expect_ok={expect_ok})");
+                }
+                let toks: Vec<String> = fields.iter().map(|f| format!("{} {}", hexs(&f.name), decl_tokens(&f.decl))).collect();
+                ops.push(format!("D {} {}{}{}", hexs(&et), toks.len(), if toks.is_empty() { "" } else { " " }, toks.join(" ")));
+                ans.push(kind);
+            }
+            // a reload from the file sees the same registry (errors left no trace on disk either)
+            let reloaded = SchemaRegistry::new_with_path(p).expect("reload");
+            if registry_snapshot(&reloaded) != registry_snapshot(&*registry.read().await) {
+                ok_all = false;
+                detail = "registry reloaded from schemas.bin differs from the live one".into();
+            }
+            s.case(&format!("session 0 {} {}", ops.len(), ops.join(" ")), &ans.join("; "), !defined.is_empty());
+            if ok_all { s.oracle_ok() } else { s.oracle_fail(i, "-", &detail) }
+        }
+        s.finish();
+    });
+}
+
+// ------------------------------------------------------------------------------------------
+// stream: peg — the STORE grammar's raw brace matcher on valid JSON object texts
+
+fn run_peg(a: &Args) {
+    let mut s = Stream::create(&a.out, "peg");
+    const PIECES: &[&str] = &["a}b", "a{b", "{}", "}{", "{{}", "x", "{\"a\":1}", "}", "{", "}}{{", "q\"}", "", "ü{", "{a}{b}"];
+    fn gen_val(r: &mut Rng, depth: u32) -> Value {
+        match r.below(if depth == 0 { 5 } else { 8 }) {
+            0 => json!(r.below(100)),
+            1 => json!(true),
+            2..=4 => json!(*r.pick(PIECES)),
+            5 => json!([*r.pick(PIECES), 1]),
+            _ => {
+                let mut m = Map::new();
+                for _ in 0..r.below(3) {
+                    m.insert(r.pick(PIECES).to_string(), gen_val(r, depth - 1));
+                }
+                Value::Object(m)
+            }
+        }
+    }
+    for i in 0..a.cases {
+        if a.only.is_some_and(|o| o != i) {
+            continue;
+        }
+        let mut r = Rng::for_case(a.seed, "peg", i);
+        let mut m = Map::new();
+        for _ in 0..r.below(4) {
+            let k = if r.chance(1, 4) { r.pick(PIECES).to_string() } else { r.pick(IDENT_NAMES).to_string() };
+            m.insert(k, gen_val(&mut r, 2));
+        }
+        let text = format!("{}{}{}", pad(&mut r).replace('\t', " "), serde_json::to_string(&Value::Object(m.clone())).unwrap(), pad(&mut r).replace('\t', " "));
+        let cmd = format!("STORE ev FOR c1 PAYLOAD {text}");
+        let parsed = parse_command(&cmd);
+        let ok = match &parsed {
+            Ok(Command::Store { payload, .. }) => *payload == Value::Object(m.clone()),
+            _ => false,
+        };
+        let imp = if parsed.is_ok() { "ok" } else { "parse-error" };
+        s.tally(&format!("answer:{imp}"));
+        let braces_in_strings = has_brace(&Value::Object(m.clone()));
+        s.tally(if braces_in_strings { "text:brace-in-a-string" } else { "text:structural-braces-only" });
+        s.case(&format!("peg {}", hexs(&text)), imp, parsed.is_ok());
+        // oracle: every text here is a valid JSON object, so a STORE carrying it must parse to that object
+        if ok {
+            s.oracle_ok();
+        } else {
+            let class = if parsed.is_err() && braces_in_strings && !peg_accepts(text.trim_start()) { "brace-in-string" } else { "-" };
+            s.oracle_fail(i, class, &format!("valid JSON object not parsed ({:?}): {cmd}", parsed.as_ref().err()));
+        }
+    }
+    s.finish();
+}
+
 fn main() {
     sys::maybe_child();
     let a = parse_args();
@@ -1090,6 +1269,8 @@ fn main() {
         "alias" => run_alias(&a),
         "define" => run_define(&a),
         "store" => run_store(&a),
+        "defineh" => run_defineh(&a),
+        "peg" => run_peg(&a),
         "session" => run_session(&a),
         other => {
             eprintln!("unknown stream {other}");
@@ -1123,6 +1304,32 @@ fn has_brace(v: &Value) -> bool {
     }
 }
 
+/// `balanced_braces` of the STORE grammar (src/command/parser/commands/store.rs), which counts
+/// braces without regard to JSON string quoting: does it consume exactly the whole text?
+fn peg_balanced(s: &[char], mut i: usize) -> Option<usize> {
+    if i >= s.len() || s[i] != '{' {
+        return None;
+    }
+    i += 1;
+    loop {
+        if let Some(j) = peg_balanced(s, i) {
+            i = j;
+            continue;
+        }
+        if i < s.len() && s[i] != '}' {
+            i += 1;
+            continue;
+        }
+        break;
+    }
+    if i < s.len() && s[i] == '}' { Some(i + 1) } else { None }
+}
+
+fn peg_accepts(text: &str) -> bool {
+    let cs: Vec<char> = text.trim_end().chars().collect();
+    peg_balanced(&cs, 0) == Some(cs.len())
+}
+
 fn ctx_text(c: &str) -> String {
     let bare = !c.is_empty()
         && c.chars().next().is_some_and(|ch| ch.is_ascii_alphabetic() || ch == '_')
@@ -1145,7 +1352,9 @@ fn sess_class_of_error(msg: &str) -> String {
 fn run_session(a: &Args) {
     let root = a.out.join("session-sys");
     let _ = std::fs::remove_dir_all(&root);
-    let cfg = SysCfg { shards: 2, event_per_zone: 16, fill_factor: 4, ..SysCfg::default() };
+    // No flush in this stream: admission is decided before the shard, and a flush of the extreme
+    // (but admitted) time values generated here costs minutes in the calendar index builder.
+    let cfg = SysCfg { shards: 2, event_per_zone: 1 << 16, fill_factor: 8, ..SysCfg::default() };
     let mut sess = Session::start(&root, &cfg);
     let mut s = Stream::create(&a.out, "session");
     const SESS_CTX: &[&str] = &["c1", "ctx-42", "ÜñÏ", "a b", " lead", "u_1", "0", "user:1"];
@@ -1251,7 +1460,8 @@ fn run_session(a: &Args) {
             let mut st = SessStore { text: String::new(), k, expected: case.conforms, labels: vec![], blank_ctx: false, brace: false, plus_exp: false, huge_time: false, to_defined: true };
             // text-level specials, only on otherwise valid cases so the class is unambiguous
             let mut payload_text = serde_json::to_string(&case.payload).unwrap();
-            if case.conforms && r.chance(1, 12) {
+            let brace_breaks = case.conforms && has_brace(&case.payload) && !peg_accepts(&payload_text);
+            if case.conforms && !brace_breaks && r.chance(1, 12) {
                 if let Some(f) = schema.iter().find(|f| matches!(f.gt, GT::F64)) {
                     let ph = serde_json::to_string(case.payload.get(&f.name).unwrap_or(&Value::Null)).unwrap();
                     let lit = *r.pick(&["1e+5", "2.5E+3", "-7e+0"]);
@@ -1271,12 +1481,15 @@ fn run_session(a: &Args) {
                     }
                 }
             }
-            if case.conforms && has_brace(&case.payload) {
+            if brace_breaks {
                 st.brace = true;
                 labels.push("brace-in-string");
+            } else if case.conforms && has_brace(&case.payload) {
+                labels.push("balanced-braces-in-string");
             }
+            let special = st.brace || st.plus_exp || st.huge_time;
             let (mut target, mut ctx) = (et.clone(), r.pick(SESS_CTX).to_string());
-            match r.below(16) {
+            match if special { 15 } else { r.below(16) } {
                 0 => {
                     ctx = String::new();
                     st.expected = false;
@@ -1324,14 +1537,14 @@ fn run_session(a: &Args) {
             }
             // ---- oracle on the answer
             if accepted != st.expected {
-                let others_ok = |skip: &str| st.labels.iter().all(|l| *l == skip || *l == "drop-optional");
-                let class = if !accepted && st.blank_ctx && rep.message == "context_id cannot be empty" && others_ok("blank-context") {
+                // the flags are set only on cases whose every other aspect is valid by construction
+                let class = if !accepted && st.blank_ctx && rep.message == "context_id cannot be empty" {
                     "blank-context"
-                } else if !accepted && st.brace && rep.parse == "error" && others_ok("brace-in-string") {
+                } else if !accepted && st.brace && rep.parse == "error" {
                     "brace-in-string"
-                } else if !accepted && st.plus_exp && rep.parse == "error" && others_ok("plus-exponent") {
+                } else if !accepted && st.plus_exp && rep.parse == "error" {
                     "plus-exponent"
-                } else if accepted && st.huge_time && others_ok("time-int-above-u64") {
+                } else if accepted && st.huge_time {
                     "time-int-above-u64"
                 } else {
                     "-"
@@ -1379,6 +1592,6 @@ fn run_session(a: &Args) {
             }
         }
     }
-    sess.shutdown();
+    sess.kill();
     s.finish();
 }
